@@ -2,11 +2,14 @@
    sbatch failures (ESbatch .. None), node deaths and time-outs (EBatchEnd/EKill) are events of the
    accepted traces.  PROVED: the results summary lists exactly the rows that were really recorded
    (none fabricated, none dropped) and reports exactly the jobs without a row as missing; a job with a
-   blocker that never got an outcome is never started.  NOT PROVED in Coq: that the documented
-   try-submit-jobs always reaches completion after such faults (decided on impl by the oracles of
-   harness/syscheck.py; one known finding: a node that dies while holding a result-file lock). *)
+   blocker that never got an outcome is never started; once no batch remains active (lost batches
+   included) and nobody holds the submitter role, a try-submit-jobs round that reaches its completion
+   check either submits a batch or completes the submission.  NOT PROVED in Coq: that such a round
+   always gets as far as its completion check - the known finding of this property (a node that dies
+   while holding a result-file lock wedges result collection) is exactly a run in which it does not;
+   decided on impl by the oracles of harness/syscheck.py. *)
 From Coq Require Import List ZArith NArith Bool.
-From Jade Require Import Base System SystemMonitors SystemProofs SystemTheorems.
+From Jade Require Import Base System SystemMonitors SystemProofs SystemTheorems SystemProgress.
 From Jade.Props Require Import SysExamples.
 Import ListNotations.
 Open Scope N_scope.
@@ -28,6 +31,25 @@ Theorem c12_rows_kept : forall sc tr s, run sc tr = Some s ->
   Permutation.Permutation (rows_of tr) (pending s ++ processed s).
 Proof. exact c11_rows_kept. Qed.
 Print Assumptions c12_rows_kept.
+
+Theorem c12_completion_after_loss_partial : forall sc tr0 tr1 p b tr2 s0 s', run sc tr0 = Some s0 -> quiescent s0 ->
+  run sc (tr0 ++ tr1 ++ ECheckComplete p b :: tr2) = Some s' ->
+  (exists e, In e tr1 /\ sbatch_ok e = true) \/ b = true.
+Proof. exact progress_run. Qed.
+Print Assumptions c12_completion_after_loss_partial.
+
+(* batch 1 is lost while job 0 runs (node killed, job 1 never started), the next round's sbatch
+   fails: nothing is active, the round completes the submission with all three jobs missing *)
+Definition ex_tr_lost : list event := firstn 9 ex_tr ++ [
+  EBatchStart 100; ELaunch 100 0; EBatchEnd 100;
+  ELoad 3 true true false false; ERound 3; ESqueue 3 []; ECollect 3 []; EMarkerTouch 3;
+  ESbatch 3 2 0 [(2, [])] (Some 1) None;
+  EUpdate 3 {| sn_jobs := [(0, (SUB, [])); (1, (SUB, [])); (2, (SUB, []))]; sn_ids := []; sn_index := 3;
+               sn_submitted := 3; sn_completed := 0 |};
+  ECheckComplete 3 true; EMarkerRemove 3; ESummary 3 [] [0; 1; 2]; EMarkComplete 3; EDemote 3 ].
+Example c12_lost_nonvacuous : accepted ex_sc ex_tr_lost = true /\
+  exists s0, run ex_sc (firstn 12 ex_tr_lost) = Some s0 /\ quiescent s0.
+Proof. split; [vm_compute; reflexivity|]. vm_compute. eexists. repeat split; reflexivity. Qed.
 
 (* batch 1 fails at sbatch: its jobs are marked submitted, never run and end up missing *)
 Definition ex_tr_sbatch_fail : list event := [
